@@ -13,17 +13,21 @@ import WacProofs.Lemmas.ElabPkg3
   where `≃` is the comparison of the driver (`canonN`: exports in any order, resources identified
   nominally).
 
-  Proved here (`elab_denotes_values_funcs_partial`): the statement for packages whose
-  interfaces contain value-type declarations (records, variants, enums, flags, `type` aliases over
-  tuples/options/results/lists and earlier names) and functions, with *equality* of the trees (in
-  declaration order) instead of `≃`.  The step lemmas already cover more than the global theorem
-  uses: `funcType_ok` is proved for methods (`self: borrow<r>` first), statics and constructors
-  (`own<r>` result), `ty_ok` for `own`/`borrow` of resources in scope.
-  Missing for the full statement (what each needs is in notes/C08-proofs.md):
-    * `resource` declarations and aliases of resources (`resourceDecl`, the `ValOnly` restriction):
-      the leaf fact has to carry the fuel of `resolve_resource` explicitly;
-    * `use` inside a package (simulation of the root scope against `env.ifaces`);
-    * worlds (imports/exports/includes): `worldItems`, `worldInclude`.
+  Proved here, for packages without worlds:
+    * `elab_denotes_values_funcs_partial` / `_rf`: interfaces of value-type declarations (records,
+      variants, enums, flags, `type` aliases over tuples/options/results/lists and earlier names)
+      and functions — *equality* of the trees, in declaration order;
+    * `elab_denotes_interfaces_partial`: interfaces with all kinds of items — `use` of earlier
+      interfaces of the package (renames, identity preserved), value-type declarations, `resource`
+      declarations with constructors / methods / statics (`[constructor]r`, `[method]r.m` with
+      `self: borrow<r>`, `[static]r.m`), aliases of resources, functions — equality of the trees
+      up to an injective renaming `ρ` of the resource leaves (specification: number of the
+      declaration; arena: root resource), in declaration order.  This is stronger than the driver's
+      `≃` on two counts (order kept, resources identified by identity instead of by name).
+  Missing for the full statement: worlds (imports / exports / includes): `worldItems` is
+  `interfaceItems` with two lists and `addIfAbsent` on the specification side, `worldInclude` vs
+  `includeInto` (spec lemmas `include_*` exist); packages that refer to other packages
+  (`resolve_package_path` is C08's model).
 -/
 namespace Wac.Props.C05
 open Wac Wac.Elab Wac.Spec.Wit Wac.Decode
